@@ -1,11 +1,110 @@
 """C18 -- a run that aborts still leaves a truthful, readable record."""
-from . import core, shared, managers, C05
+from . import core, shared, managers, control, C05
 USES = ["shared"]
+
+
+from pyvc.contract import Contract
+from .core import CF, MACROS
+
+CPS = "csvpath/csvpaths.py"
+RM = "csvpath/managers/results/results_manager.py"
+CF["ResultsManager"].update({"g_started": "int", "g_saves": "int", "g_completed": "int", "g_added": "int"}) if "ResultsManager" in CF else CF.__setitem__(
+    "ResultsManager", {"g_started": "int", "g_saves": "int", "g_completed": "int", "g_added": "int"})
+CF["CsvPaths"].update({"_current_run_time": "val", "_run_time_str": "optstr", "results_manager": "obj:ResultsManager"})
+MAY_RAISE = {"Exception": {"when": "True", "exact": False}}
+
+
+def run_interfaces():
+    cs = []
+
+    def iface(target, types, ensures=None, modifies=None, returns="none", raises=None, why=""):
+        cs.append(Contract(target=target, interface=True, types=types, ensures=ensures or {}, modifies=modifies or [], returns=returns, raises=raises or {},
+                           class_fields=CF, assumptions=[why]))
+    iface("csvpath/managers/paths/paths_manager.py::PathsManager.get_named_paths", {"name": "val"}, returns="list[str]",
+          why="PathsManager.get_named_paths returns the group's csvpaths (C12)")
+    iface("csvpath/managers/files/file_manager.py::FileManager.get_named_file", {"name": "val"}, returns="str", why="FileManager.get_named_file returns the stored file's path (C11)")
+    iface(f"{CPS}::CsvPaths.clean", {"paths": "val"}, why="CsvPaths.clean forgets the in-memory results of the named paths")
+    iface(f"{CPS}::CsvPaths.run_time_str", {"pathsname": "val"}, returns="str", modifies=["self._run_time_str", "self._current_run_time"],
+          ensures={"remembered": "self._run_time_str is not None"}, why="CsvPaths.run_time_str fixes the run directory name for the run (C10)")
+    iface(f"{CPS}::CsvPaths.current_run_time", {}, returns="val", why="CsvPaths.current_run_time is the run's start time")
+    iface(f"{CPS}::CsvPaths.csvpath", {}, returns="obj:CsvPath", why="CsvPaths.csvpath() creates a fresh CsvPath")
+    iface(f"{CPS}::CsvPaths._load_csvpath", {"csvpath": "obj:CsvPath", "path": "val", "file": "val", "pathsname": "val", "filename": "val", "by_line": "val"}, raises=MAY_RAISE,
+          why="_load_csvpath parses the csvpath and may raise (bad csvpath, source-mode errors): C20")
+    iface("csvpath/csvpath.py::CsvPath.collect", {"csvpath": "val", "nexts": "val", "lines": "val"}, raises=MAY_RAISE, returns="val",
+          why="CsvPath.collect runs the csvpath and may raise when the error policy says raise (C05/C07)")
+    iface("csvpath/csvpath.py::CsvPath.fast_forward", {"csvpath": "val"}, raises=MAY_RAISE, returns="val", why="CsvPath.fast_forward may raise (C05/C07)")
+    iface(f"{RM}::ResultsManager.start_run", {"run_dir": "val", "pathsname": "val", "filename": "val"}, modifies=["self.g_started"],
+          ensures={"counted": "self.g_started == old(self.g_started) + 1"}, why="ResultsManager.start_run registers the run start (C09)")
+    iface(f"{RM}::ResultsManager.complete_run", {"run_dir": "val", "pathsname": "val", "results": "val"}, modifies=["self.g_completed"],
+          ensures={"counted": "self.g_completed == old(self.g_completed) + 1"}, why="ResultsManager.complete_run writes the run manifest (C09)")
+    iface(f"{RM}::ResultsManager.add_named_result", {"result": "val"}, modifies=["self.g_added"], ensures={"counted": "self.g_added == old(self.g_added) + 1"},
+          why="ResultsManager.add_named_result keeps the result in memory")
+    iface(f"{RM}::ResultsManager.save", {"result": "val"}, modifies=["self.g_saves"], ensures={"counted": "self.g_saves == old(self.g_saves) + 1"},
+          why="ResultsManager.save serialises one member's result (C09)")
+    iface("csvpath/util/error.py::ErrorHandler.handle_error", {"ex": "val"}, raises=MAY_RAISE, why="ErrorHandler.handle_error applies the error policy and raises when it says raise (C05)")
+    iface("csvpath/managers/results/result.py::Result.lines", {}, returns="val", why="Result.lines is the member's line spooler")
+    iface("csvpath/csvpath.py::CsvPath.unmatched", {}, returns="val", why="CsvPath.unmatched is the list of unmatched lines")
+    return cs
+
+
+def run_contracts():
+    cs = []
+    rm = "self.results_manager"
+    for meth in ("collect_paths", "fast_forward_paths"):
+        cs.append(Contract(
+            target=f"{CPS}::CsvPaths.{meth}",
+            types={"pathsname": "str", "filename": "str", "self.results_manager": "obj:ResultsManager", "self.paths_manager": "obj:PathsManager", "self.file_manager": "obj:FileManager"},
+            modifies=[f"{rm}.g_started", f"{rm}.g_saves", f"{rm}.g_completed", f"{rm}.g_added", "self._run_time_str", "self._current_run_time",
+                      "self._stop_all", "self._fail_all", "self._skip_all", "self._advance_all"],
+            raises=MAY_RAISE,
+            ensures={"every_member_is_saved_and_the_run_is_completed_once": f"{rm}.g_completed == old({rm}.g_completed) + 1 and {rm}.g_started == old({rm}.g_started) + 1",
+                     "a_finished_run_forgets_its_run_directory": "self._run_time_str is None and self._current_run_time is None"},
+            ensures_exc={"an_aborted_run_is_not_completed": f"{rm}.g_completed == old({rm}.g_completed)",
+                         "the_aborting_member_is_saved_before_the_exception_leaves": f"implies({rm}.g_started == old({rm}.g_started) + 1, {rm}.g_saves >= old({rm}.g_saves) + 1)",
+                         "an_aborted_run_forgets_its_run_directory_too": f"implies({rm}.g_started == old({rm}.g_started) + 1, self._run_time_str is None and self._current_run_time is None)"},
+            invariants={0: [f"{rm}.g_saves == old({rm}.g_saves) + _i0", f"{rm}.g_completed == old({rm}.g_completed)", f"{rm}.g_started == old({rm}.g_started) + 1"]},
+            loop_havoc={0: [f"{rm}.g_saves", f"{rm}.g_added"]},
+            stub_new=["Result", "ErrorHandler"], list_literals={"results": "list[val]"}, class_fields=CF, macros=MACROS, returns="none", native={"skip": True},
+            property_clauses={"every_member_is_saved_and_the_run_is_completed_once": "C18,C09", "a_finished_run_forgets_its_run_directory": "C10",
+                              "an_aborted_run_is_not_completed": "C18", "the_aborting_member_is_saved_before_the_exception_leaves": "C18",
+                              "an_aborted_run_forgets_its_run_directory_too": "C18,C10"},
+            doc={"the_aborting_member_is_saved_before_the_exception_leaves": "C18: 'a run that aborts still leaves a ... record': the member being run when the exception leaves has been saved",
+                 "an_aborted_run_forgets_its_run_directory_too": "C18: 'a subsequent run on the same instance archives normally'; C10: into its own run directory"}))
+    CF["CsvPaths"].update({"g_yielded": "list[val]"})
+    CF["Result"] = {**CF.get("Result", {}), "g_appended": "int"}
+    cs.append(Contract(target="csvpath/csvpath.py::CsvPath.next", interface=True, variant="as_a_list", types={}, raises=MAY_RAISE, returns="list[val]", class_fields=CF,
+                       assumptions=["CsvPath.next() yields the matching lines (C01/C07); here it is the list of those lines; an exception raised part-way through the iteration is "
+                                    "modelled as raised before the first line (the handler does not depend on how many lines were yielded)"]))
+    cs.append(Contract(target="csvpath/managers/results/result.py::Result.append", interface=True, types={"line": "val"}, modifies=["self.g_appended"],
+                       ensures={"counted": "self.g_appended == old(self.g_appended) + 1"}, returns="none", class_fields=CF, assumptions=["Result.append keeps one line"]))
+    cs.append(Contract(
+        target=f"{CPS}::CsvPaths.next_paths",
+        types={"pathsname": "str", "filename": "str", "collect": "bool", "self.results_manager": "obj:ResultsManager", "self.paths_manager": "obj:PathsManager",
+               "self.file_manager": "obj:FileManager", "self.g_yielded": "list[val]"},
+        modifies=[f"{rm}.g_started", f"{rm}.g_saves", f"{rm}.g_completed", f"{rm}.g_added", "self._run_time_str", "self._current_run_time",
+                  "self._stop_all", "self._fail_all", "self._skip_all", "self._advance_all", "self.g_yielded"],
+        raises=MAY_RAISE,
+        ensures={"the_run_is_completed_once": f"{rm}.g_completed == old({rm}.g_completed) + 1 and {rm}.g_started == old({rm}.g_started) + 1",
+                 "a_finished_run_forgets_its_run_directory": "self._run_time_str is None and self._current_run_time is None"},
+        ensures_exc={"an_aborted_run_is_not_completed": f"{rm}.g_completed == old({rm}.g_completed)",
+                     "the_aborting_member_is_saved_before_the_exception_leaves": f"implies({rm}.g_started == old({rm}.g_started) + 1, {rm}.g_saves >= old({rm}.g_saves) + 1)",
+                     "an_aborted_run_forgets_its_run_directory_too": f"implies({rm}.g_started == old({rm}.g_started) + 1, self._run_time_str is None and self._current_run_time is None)"},
+        invariants={0: [f"{rm}.g_saves == old({rm}.g_saves) + _i0", f"{rm}.g_completed == old({rm}.g_completed)", f"{rm}.g_started == old({rm}.g_started) + 1"],
+                    1: [f"{rm}.g_saves == old({rm}.g_saves) + _i0", f"{rm}.g_completed == old({rm}.g_completed)", f"{rm}.g_started == old({rm}.g_started) + 1"]},
+        loop_havoc={0: [f"{rm}.g_saves", f"{rm}.g_added", "self.g_yielded"], 1: ["self.g_yielded"]},
+        yield_to="self.g_yielded", callee_variants={"CsvPath.next": "as_a_list"},
+        stub_new=["Result", "ErrorHandler"], list_literals={"results": "list[val]"}, class_fields=CF, macros=MACROS, returns="none", native={"skip": True},
+        inline=["CsvPath.is_valid.setter"],
+        property_clauses={"the_run_is_completed_once": "C18,C09", "a_finished_run_forgets_its_run_directory": "C10", "an_aborted_run_is_not_completed": "C18",
+                          "the_aborting_member_is_saved_before_the_exception_leaves": "C18", "an_aborted_run_forgets_its_run_directory_too": "C18,C10"}))
+    return cs
 
 
 def contracts():
     c05 = core.select(C05.contracts(), ("ErrorHandler._handle_if",))
-    return c05
+    from . import C10
+    crc = [c for c in C10.contracts() if c.target.endswith("CsvPaths.clear_run_coordination")]
+    return c05 + run_interfaces() + run_contracts() + crc
 
 
 def bounded(tier, seed):
@@ -15,6 +114,8 @@ def bounded(tier, seed):
 
 
 LEVEL = "other"
-EXPLANATION = ("Proved: ErrorHandler._handle_if collects the error before it raises (exceptional-exit clauses *_before_raise), for all policies. "
-               "Bounded: all abort points of the stated grid are run on the real CsvPaths and the archive is read back. The exception paths of the "
-               "six run methods are not yet under contract.")
+EXPLANATION = ("Proved, for all groups, all abort points and all error policies: collect_paths, fast_forward_paths and next_paths save the member being run before an exception "
+               "leaves them, do not complete the run (no run manifest completion), and clear the run coordination so that the next run on the same instance gets its own run "
+               "directory; a run that finishes saves every member, completes once and clears the coordination (loop invariant over the members). ErrorHandler._handle_if collects "
+               "the error before it raises. Bounded (not proved): every abort point of the stated grid on the real CsvPaths, the archive read back -- this is also the only "
+               "evidence for next_by_line (breadth-first), whose body is outside the contracts. One known finding (abort on the last line says completed).")
